@@ -14,7 +14,7 @@
    specification; every statement quantifies over all matrices (any number of rows). *)
 From Coq Require Import List Arith Bool NArith ZArith Lia Permutation.
 From LMBase Require Import Res ListX IEEE.
-From LMMaxi Require Import MaxiModel MaxiProofs MaxiKernels MaxiIEEE MaxiTop.
+From LMMaxi Require Import MaxiModel MaxiProofs MaxiKernels MaxiIEEE MaxiTop MaxiBuffer MaxiBufferProofs.
 Import ListNotations.
 
 (* ================= order facts (discharged for binary32 and for u8) ================= *)
@@ -502,6 +502,105 @@ Proof.
   exact (MaxiTop.check_padding_max_complete le good PO is_ninf is_fin ninf C m V omax o).
 Qed.
 
+(* ================= reused score buffers (round 3, seeded/C07/6) =================
+   A StripedScores buffer is a backing vector of rows + a row count (MaxiBuffer.v: dense.rs
+   DenseMatrix { data, rows }).  The default scalar scans walk `matrix().iter()` -- the whole
+   backing vector -- while the vector kernels, Index and offset() use rows().  Whatever the buffer
+   held before (any sequence of StripedScores::resize / DenseMatrix::resize to more or fewer rows
+   and of cell writes, from the empty buffer), iter() yields exactly rows 0..rows(), so every
+   answer is the answer of MaxiModel.v's function on the logical rows alone. *)
+Theorem C07_history_independent :
+  forall (T : Type) (le : T -> T -> bool) (dflt : T) (C : nat) (ops : list (@bop T)) (b : @buffer T),
+  b_run C (vec_resize dflt C) b_empty ops = Ok b ->
+  length (b_iter b) = brows b /\
+  b_iter b = b_logical b /\
+  buf_argmax_generic le b = argmax_generic le (b_logical b) /\
+  buf_max_generic le b = max_generic le (b_logical b) /\
+  (forall t, buf_threshold_generic le b t = threshold_generic le (b_logical b) t) /\
+  (forall rc, buf_offset b rc = offset (b_logical b) rc) /\
+  (forall i, buf_index_usize b i = index_usize (b_logical b) i).
+Proof. intros T le dflt C. exact (history_independent le dflt C). Qed.
+
+(* two buffers with different pasts and the same rows 0..rows() give the same answers *)
+Theorem C07_history_same_logical :
+  forall (T : Type) (le : T -> T -> bool) (dflt : T) (C : nat) (ops1 ops2 : list (@bop T)) (b1 b2 : @buffer T),
+  b_run C (vec_resize dflt C) b_empty ops1 = Ok b1 ->
+  b_run C (vec_resize dflt C) b_empty ops2 = Ok b2 ->
+  b_logical b1 = b_logical b2 ->
+  buf_argmax_generic le b1 = buf_argmax_generic le b2 /\
+  buf_max_generic le b1 = buf_max_generic le b2 /\
+  (forall t, buf_threshold_generic le b1 t = buf_threshold_generic le b2 t) /\
+  (forall rc, buf_offset b1 rc = buf_offset b2 rc).
+Proof. intros T le dflt C. exact (same_logical_same_answers le dflt C). Qed.
+
+(* the property itself on a reused buffer: maximum / arg-maximum / threshold of the default
+   implementations meet the specifications of the matrix made of rows 0..rows() *)
+Theorem C07_history_answers_meet_spec :
+  forall (T : Type) (le : T -> T -> bool) (dflt : T) (C : nat) (good : T -> Prop),
+  preorder_on good le -> 0 < C ->
+  forall (ops : list (@bop T)) (b : @buffer T),
+  b_run C (vec_resize dflt C) b_empty ops = Ok b -> all_good good (b_logical b) ->
+  wf C (b_logical b) /\ length (b_logical b) = brows b /\
+  (exists o, buf_max_generic le b = Ok o /\ max_spec le (b_logical b) o) /\
+  (exists o, buf_argmax_generic le b = Ok o /\ argmax_spec le C (b_logical b) o) /\
+  (forall t, threshold_spec le (b_logical b) t (buf_threshold_generic le b t)).
+Proof. intros T le dflt C. exact (history_answers_meet_spec le dflt C). Qed.
+
+Theorem C07_history_f32 :
+  forall (C : nat), 0 < C -> forall (ops : list (@bop F32.t)) (b : @buffer F32.t),
+  b_run C (vec_resize F32.zero C) b_empty ops = Ok b -> all_good f32_good (b_logical b) ->
+  (exists o, buf_max_generic F32.le b = Ok o /\ max_spec F32.le (b_logical b) o) /\
+  (exists o, buf_argmax_generic F32.le b = Ok o /\ argmax_spec F32.le C (b_logical b) o) /\
+  (forall t, threshold_spec F32.le (b_logical b) t (buf_threshold_generic F32.le b t)).
+Proof.
+  intros C HC ops b H G.
+  exact (proj2 (proj2 (history_answers_meet_spec F32.le F32.zero C f32_good
+                         (of_preorder _ _ _ _ _ _ f32_order_facts) HC ops b H G))).
+Qed.
+
+Theorem C07_history_u8 :
+  forall (C : nat), 0 < C -> forall (ops : list (@bop Z)) (b : @buffer Z),
+  b_run C (vec_resize 0%Z C) b_empty ops = Ok b -> all_good zgood (b_logical b) ->
+  (exists o, buf_max_generic Z.leb b = Ok o /\ max_spec Z.leb (b_logical b) o) /\
+  (exists o, buf_argmax_generic Z.leb b = Ok o /\ argmax_spec Z.leb C (b_logical b) o) /\
+  (forall t, threshold_spec Z.leb (b_logical b) t (buf_threshold_generic Z.leb b t)).
+Proof.
+  intros C HC ops b H G.
+  exact (proj2 (proj2 (history_answers_meet_spec Z.leb 0%Z C zgood zle_preorder HC ops b H G))).
+Qed.
+
+(* shrinking drops the last rows for good: growing again exposes default rows, never what the
+   buffer held before (resize to n <= rows, then to k >= n) *)
+Theorem C07_history_shrink_then_grow :
+  forall (T : Type) (dflt : T) (C : nat) (ops : list (@bop T)) (b : @buffer T) (n k : nat),
+  b_run C (vec_resize dflt C) b_empty ops = Ok b -> n <= brows b -> n <= k ->
+  b_logical (dm_resize (vec_resize dflt C) (dm_resize (vec_resize dflt C) b n) k)
+  = firstn n (b_logical b) ++ repeat (repeat dflt C) (k - n).
+Proof.
+  intros T dflt C ops b n k H. apply (shrink_then_grow dflt C).
+  eapply (b_run_inv dflt C); [apply binv_empty | exact H].
+Qed.
+
+(* a resize that only ever grows the backing vector (seeded/C07/6) is refuted: 2 rows of 9s,
+   shrunk to 1 row rewritten with 1s -- maximum 9 at cell (1,1) and two threshold hits in row 1 of
+   a one-row matrix whose largest value is 1; the code as it is answers 1 at (0,1), no hit *)
+Theorem C07_resize_grow_only_refuted :
+  exists b, b_run 2 (vec_resize_grow_only 0%Z 2) b_empty stale_ops = Ok b /\
+            b_logical b = [[1; 1]]%Z /\
+            buf_max_generic Z.leb b = Ok (Some 9%Z) /\
+            buf_argmax_generic Z.leb b = Ok (Some (1, 1)) /\
+            buf_threshold_generic Z.leb b 5%Z = [(1, 0); (1, 1)] /\
+            max_generic Z.leb (b_logical b) = Ok (Some 1%Z).
+Proof. exact grow_only_refuted. Qed.
+
+Theorem C07_history_example :
+  exists b, b_run 2 (vec_resize 0%Z 2) b_empty stale_ops = Ok b /\
+            b_logical b = [[1; 1]]%Z /\
+            buf_max_generic Z.leb b = Ok (Some 1%Z) /\
+            buf_argmax_generic Z.leb b = Ok (Some (0, 1)) /\
+            buf_threshold_generic Z.leb b 5%Z = [].
+Proof. exact as_coded_on_stale_ops. Qed.
+
 (* ================= statement pins ================= *)
 
 Check C07_max_spec :
@@ -536,6 +635,23 @@ Check check_C07_sound :
   wf C m -> Permutation reported sorted ->
   check_C07 le m t omax oam sorted = true ->
   max_holds le m omax /\ argmax_spec le C m oam /\ threshold_spec le m t reported.
+
+Check C07_history_independent :
+  forall (T : Type) (le : T -> T -> bool) (dflt : T) (C : nat) (ops : list (@bop T)) (b : @buffer T),
+  b_run C (vec_resize dflt C) b_empty ops = Ok b ->
+  length (b_iter b) = brows b /\
+  b_iter b = b_logical b /\
+  buf_argmax_generic le b = argmax_generic le (b_logical b) /\
+  buf_max_generic le b = max_generic le (b_logical b) /\
+  (forall t, buf_threshold_generic le b t = threshold_generic le (b_logical b) t) /\
+  (forall rc, buf_offset b rc = offset (b_logical b) rc) /\
+  (forall i, buf_index_usize b i = index_usize (b_logical b) i).
+(* the buffer model, spelled out: resize_with truncates / appends default rows; iter() is the
+   whole backing vector; the logical rows are its first rows() rows *)
+Check (fun (T : Type) (dflt : T) (C : nat) (d : list (list T)) (n : nat) =>
+  eq_refl : vec_resize dflt C d n = firstn n d ++ repeat (repeat dflt C) (n - length d)).
+Check (fun (T : Type) (b : @buffer T) =>
+  conj eq_refl eq_refl : b_iter b = bdata b /\ b_logical b = firstn (brows b) (bdata b)).
 
 (* the specifications, spelled out (so that a change of a definition is visible here) *)
 Check (fun (T : Type) (le : T -> T -> bool) (m : list (list T)) (v : T) =>
